@@ -151,6 +151,9 @@ pub enum Policy {
     Ignore,
     /// leave the peer pending; the application decides in a later step (`NetDecide`)
     Defer,
+    /// reject while the environment refuses the close datagram (send error): the call reports
+    /// the error, the peer is gone all the same
+    RejectSendFails,
 }
 
 #[derive(Clone, Copy, Debug, Eq, Hash, PartialEq)]
@@ -616,6 +619,22 @@ impl NetM {
                 s.pids.remove(&a);
                 self.expect_same("reject", vec![], vec![], out, exp, true)
             }
+            Policy::RejectSendFails => {
+                let mut reported = false;
+                let (_, out) = self.net_call(s, a, |n, cb| {
+                    let mut f = FailCb { inner: cb, fails: 1 };
+                    reported = n.reject(&mut f, pid, b"full").is_err();
+                    vec![]
+                });
+                let (_, exp) = self.ref_call(s, a, |e, cb, _| Ep::disconnect(e, cb, b"full"));
+                s.refs.remove(&a);
+                s.pids.remove(&a);
+                if !exp.is_empty() && !reported {
+                    return Some(("send-error-not-reported".into(), format!("reject of address {} did not report the failed send", a)));
+                }
+                let exp_after_loss: Vec<(Addr, Vec<u8>)> = exp.into_iter().skip(1).collect();
+                self.expect_same("reject-send-fails", vec![], vec![], out, exp_after_loss, true)
+            }
             Policy::Ignore => {
                 let (_, out) = self.net_call(s, a, |n, _| {
                     n.ignore(pid);
@@ -1049,6 +1068,9 @@ impl Model for NetM {
                 if self.cfg.defer {
                     out.push(NAct::ToNet(i as u8, Policy::Defer));
                 }
+                if self.cfg.send_faults {
+                    out.push(NAct::ToNet(i as u8, Policy::RejectSendFails));
+                }
             } else {
                 out.push(NAct::ToNet(i as u8, Policy::Accept));
             }
@@ -1093,6 +1115,9 @@ impl Model for NetM {
                 if p.conn.state == 0 && s.pending.contains_key(&a) {
                     for pol in [Policy::Accept, Policy::Reject, Policy::Ignore] {
                         out.push(NAct::NetDecide(a, pol));
+                    }
+                    if self.cfg.send_faults {
+                        out.push(NAct::NetDecide(a, Policy::RejectSendFails));
                     }
                 }
                 if p.conn.state == 3 {
